@@ -209,15 +209,10 @@ Proof.
   destruct (validate_name_shape _ Hv) as (c & r & -> & Hc & H91 & Hns).
   unfold lookup. cbn [length walk]. rewrite Hc.
   destruct (find_index_some _ _ _ Hs) as (k & Hk & _).
-  assert (Hnot : match c :: r with 91 :: _ => False | _ => True end).
-  { destruct c as [|pc|pc]; auto. repeat (destruct pc as [pc|pc|]; auto). }
+  unfold strip_byte. replace (c =? 91) with false by (symmetry; apply Z.eqb_neq; exact H91).
   rewrite Hty.
   assert (Hsp : span (fun c0 : Z => negb (is_sep c0)) (c :: r) = (c :: r, [])) by (apply span_all; exact Hns).
-  destruct c as [|pc|pc].
-  1,3: rewrite Hsp, Hs, Hk; destruct r; reflexivity.
-  (* positive: show it is not 91 *)
-  assert (Zpos pc <> 91) by assumption.
-  repeat (destruct pc as [pc|pc|]; try congruence; try (rewrite Hsp, Hs, Hk; destruct r; reflexivity)).
+  rewrite Hsp, Hs, Hk. destruct r; reflexivity.
 Qed.
 
 (* ------------------------------------------------------------------------------------ *)
